@@ -346,6 +346,11 @@ func (sdbh *SemaDBHandlers) HandleInsertPoints(w http.ResponseWriter, r *http.Re
 			pointId = uuid.MustParse(point.Id)
 		}
 		pointData := models.PointAsMap{"vector": point.Vector, "metadata": point.Metadata}
+		if err := pointData.CheckJSONCompatible(); err != nil {
+			errMsg := fmt.Sprintf("point at index %d is not JSON compatible: %s", i, err.Error())
+			utils.Encode(w, http.StatusBadRequest, map[string]string{"error": errMsg})
+			return
+		}
 		binaryPointData, err := msgpack.Marshal(pointData)
 		if err != nil {
 			errMsg := fmt.Sprintf("failed to JSON encode point at index %d, please ensure all fields are JSON compatible", i)
@@ -450,6 +455,11 @@ func (sdbh *SemaDBHandlers) HandleUpdatePoints(w http.ResponseWriter, r *http.Re
 			Id: uuid.MustParse(point.Id),
 		}
 		pointData := models.PointAsMap{"vector": point.Vector, "metadata": point.Metadata}
+		if err := pointData.CheckJSONCompatible(); err != nil {
+			errMsg := fmt.Sprintf("point at index %d is not JSON compatible: %s", i, err.Error())
+			utils.Encode(w, http.StatusBadRequest, map[string]string{"error": errMsg})
+			return
+		}
 		binaryPointData, err := msgpack.Marshal(pointData)
 		if err != nil {
 			errMsg := fmt.Sprintf("failed to JSON encode %d, please ensure all fields are JSON compatible", i)
